@@ -166,9 +166,7 @@ def case(i: int) -> bool:
     pre: core.PARAMS["lo"] <= i < core.PARAMS["hi"]
     post: _
     """
-    from asv.symrt.env import realize
-
-    return held(_case, {"i": realize(i)})
+    return held(_case, {"i": core.pick(i, core.PARAMS["lo"], core.PARAMS["hi"])})
 
 
 def _case(i):
